@@ -589,10 +589,10 @@ def repr_cases():
 
 
 def arms(tier):
-    return [Arm("write", eval_write, write_cases, quick=300, thorough=8000),
-            Arm("read", eval_read, read_cases, quick=300, thorough=8000),
-            Arm("constructor", eval_ctor, ctor_cases, quick=600, thorough=15000),
-            Arm("representer", eval_repr, repr_cases, quick=400, thorough=10000)]
+    return [Arm("write", eval_write, write_cases, quick=700, thorough=10000),
+            Arm("read", eval_read, read_cases, quick=700, thorough=10000),
+            Arm("constructor", eval_ctor, ctor_cases, quick=1200, thorough=20000),
+            Arm("representer", eval_repr, repr_cases, quick=800, thorough=15000)]
 
 
 REQUIRED_CLASSES = ["write-fault", "read-fault", "constructor-fault", "representer-fault", "invocations>=3", "at:key", "at:set-member",
